@@ -410,22 +410,46 @@ def checkContinuous : List VH → M (Option Nat)
     if ← isParentOf a b then checkContinuous (b :: rest) else pure (some 435)
   | _ => pure none
 
+/-- the remembered hash at a block number: the stored tip, else a stored last-N header -/
+def remembered (s : St) (n : Nat) : Option Nat :=
+  if n = s.stored.tip.number then some s.stored.tip.hid
+  else (s.stored.lastN.find? (·.1 = n)).map (·.2)
+
+/-- fork detection of `commit_prove_state`: `none` = the chain is not reorganised,
+`some none` = reorganised but no remembered header is on the new chain (long fork),
+`some (some n)` = reorganised after block `n`.  With reorg headers they are compared with the
+stored last-N headers; without, the new last headers and the new last header are compared with
+the stored last-N headers and the stored tip (a request that starts from a remembered header is
+answered without reorg headers even if the chain was reorganised). -/
+def forkOf (s : St) (nps : ProveState) : Option (Option Nat) :=
+  if nps.reorgLast.isEmpty then
+    if s.stored.tip.number = 1 then none
+    else
+      let new := nps.lastHeaders ++ [nps.last]
+      if new.any (fun h => match remembered s h.number with
+          | some hash => hash ≠ h.hid
+          | none => false) then
+        some (new.reverse.findSome? (fun h => match remembered s h.number with
+          | some hash => if hash = h.hid then some h.number else none
+          | none => none))
+      else none
+  else
+    some (nps.reorgLast.reverse.findSome? (fun rh =>
+      match s.stored.lastN.find? (·.1 = rh.number) with
+      | some (_, hash) => if hash = rh.hid then some rh.number else none
+      | none => none))
+
 /-- `commit_prove_state`: `(state, committed?)`; `false` = long fork detected -/
 def commitProveState (s : St) (p : Nat) (nps : ProveState) : M (Except Nat (St × Bool)) := do
   let newTd ← nps.last.td
   let mut s1 := s
   if s.stored.td < newTd then
-    if nps.reorgLast.isEmpty then
-      if s.stored.tip.number = 1 then
+    match forkOf s nps with
+    | none =>
+      if nps.reorgLast.isEmpty && s.stored.tip.number = 1 then
         s1 := { s1 with rollbacks := s1.rollbacks ++ [1] }
-    else
-      let fork := nps.reorgLast.reverse.findSome? (fun rh =>
-        match s.stored.lastN.find? (·.1 = rh.number) with
-        | some (_, hash) => if hash = rh.hid then some rh.number else none
-        | none => none)
-      match fork with
-      | some toNumber => s1 := { s1 with rollbacks := s1.rollbacks ++ [toNumber + 1] }
-      | none => return .ok (s, false)
+    | some (some toNumber) => s1 := { s1 with rollbacks := s1.rollbacks ++ [toNumber + 1] }
+    | some none => return .ok (s, false)
     s1 := storeLastState s1 newTd nps.last nps.lastHeaders
   match getPeer s1 p with
   | none => return .ok (s1, true)
@@ -658,7 +682,7 @@ def showPeer (e : Nat × PeerState) : String :=
   s!"[{e.1} {kindOf ps} ls={showOptVid (ps.lastState?.map (·.h.vid))} rq={rq} ps={showOptVid (ps.proveState?.map (·.last.vid))} lh={lhs}]"
 
 def showSt (s : St) : String :=
-  s!"stored td={s.stored.td} tip={s.stored.tip.hid} lastN={s.stored.lastN} peers {" ".intercalate (s.peers.map showPeer)}"
+  s!"stored td={s.stored.td} tip={s.stored.tip.hid} lastN={s.stored.lastN} rb={s.rollbacks} peers {" ".intercalate (s.peers.map showPeer)}"
 
 def parseVH : List Nat → Option (VH × List Nat)
   | vid :: hid :: number :: parent :: ptd :: pend :: en :: ei :: el :: compact :: pow :: root :: recent :: rest =>
@@ -738,7 +762,7 @@ def stepLine (s : St) (line : String) : St × String :=
         | .ok o => (o.st, s!"disconnect {o.disconnect} sent {o.sent.map showSent}")
         | .error e => (s, showPanic e))
      | _, _ => (s, "bad-op"))
-  | ["dump"] :: _ => (s, showSt s)
+  | ["dump"] :: _ => ({ s with rollbacks := [] }, showSt s)
   | _ => (s, "bad-op")
 
 def initSt : St := ⟨100, 60000, 8000, 2, [], ⟨0, ⟨0, 0, 0, 0, 0, 0, ⟨0, 0, 0⟩, 0, true, true, true⟩, []⟩, []⟩
